@@ -36,6 +36,7 @@ type World struct {
 
 	phiBusy     map[*ssa.Phi]bool
 	absorbMemo  map[*ssa.Function]bool
+	paramCtx    map[*ssa.Parameter]ssa.Value // bindings of the helper call being analysed in line (absorb.go)
 	callSitesOf map[*ssa.Function][]*ssa.Call
 	cg          *callgraph.Graph
 	Blocks      int
@@ -321,6 +322,9 @@ func (w *World) pathDepth(v ssa.Value, depth int) string {
 	case *ssa.Parameter:
 		// a helper extracted after the rules were confirmed: its parameters are
 		// the arguments of its single call site (see absorb.go)
+		if a, ok := w.paramCtx[x]; ok && d < 40 {
+			return w.pathDepth(a, d+1)
+		}
 		if c := w.uniqueCallSite(x.Parent()); c != nil && d < 40 {
 			for i, p := range x.Parent().Params {
 				if p == x && i < len(c.Call.Args) {
@@ -392,8 +396,16 @@ func (w *World) pathDepth(v ssa.Value, depth int) string {
 	case *ssa.ChangeInterface:
 		return w.pathDepth(x.X, d)
 	case *ssa.Extract:
+		if c, ok := x.Tuple.(*ssa.Call); ok {
+			if v := w.absorbedResult(c, x.Index); v != nil {
+				return w.pathDepth(v, d)
+			}
+		}
 		return w.pathDepth(x.Tuple, d) + "#" + fmt.Sprint(x.Index)
 	case *ssa.Call:
+		if v := w.absorbedResult(x, 0); v != nil && x.Call.Signature().Results().Len() == 1 {
+			return w.pathDepth(v, d)
+		}
 		return "call:" + w.calleeName(&x.Call) + "@" + w.instrPos(x)
 	case *ssa.MakeClosure:
 		return "func:" + w.name(x.Fn.(*ssa.Function))
